@@ -101,7 +101,9 @@ class PrefixDefinition(NamedDefinition, errors.WithDefErr):
         if not errors.is_valid_prefix_name(self.name):
             raise self.def_err(errors.MSG_INVALID_PREFIX_NAME)
 
-        if self.defined_symbol and not errors.is_valid_prefix_symbol(self.name):
+        if self.defined_symbol and not errors.is_valid_prefix_symbol(
+            self.defined_symbol
+        ):
             raise self.def_err(
                 f"the symbol {self.defined_symbol} " + errors.MSG_INVALID_PREFIX_SYMBOL
             )
@@ -176,7 +178,9 @@ class UnitDefinition(NamedDefinition, errors.WithDefErr):
 
         super.__setattr__(self, "_is_base", is_base)
 
-        if self.defined_symbol and not errors.is_valid_unit_symbol(self.name):
+        if self.defined_symbol and not errors.is_valid_unit_symbol(
+            self.defined_symbol
+        ):
             raise self.def_err(
                 f"the symbol {self.defined_symbol} " + errors.MSG_INVALID_UNIT_SYMBOL
             )
